@@ -36,6 +36,12 @@ def run(v, tier):
     for base in range(0, maxn, chunk):
         words = [enc(k) for k in range(base + 1, min(base + chunk, maxn) + 1)]
         reqs.append({'cmd': 'mmnum', 'words': words, '_base': base})
+    # windows around the word-length boundaries 5(5^k - 1) and at random places far beyond maxn (7 to 12 letter words)
+    for k in range(1, 12):
+        reqs.append({'cmd': 'mmnum', 'words': [enc(n) for n in range(5 * (5 ** k - 1) - 3, 5 * (5 ** k - 1) + 6)], '_base': 5 * (5 ** k - 1) - 4})
+    for _ in range(40 if quick else 400):
+        b = rng.randrange(maxn, 2 * 10 ** 8)
+        reqs.append({'cmd': 'mmnum', 'words': [enc(n) for n in range(b + 1, b + 6)], '_base': b})
     import lem
     res = lem_run(reqs)
     for q, r in zip(reqs, res):
